@@ -436,7 +436,7 @@ func runExec(cfg *runCfg, prop string) error {
 		}
 	}
 	r := rand.New(rand.NewSource(cfg.Seed))
-	sh := NewSharder(cfg.Out, "cases_"+prop, execHeader, 250_000)
+	sh := NewSharder(cfg.Out, "cases_"+prop, execHeader, 40_000)
 	doc := &CasesDoc{Property: prop, Seed: cfg.Seed, Tier: cfg.Tier, Dist: map[string]int{}}
 	var cases []*xCase
 	if cfg.Replay != "" {
@@ -507,7 +507,11 @@ func runExec(cfg *runCfg, prop string) error {
 		for i, fr := range failedRoots {
 			numbering[fmt.Sprintf("failed-root-%d", i)] = fr
 		}
-		if counter > 1500 {
+		limit := 300
+		if cfg.Tier == "thorough" {
+			limit = 1500
+		}
+		if counter > limit {
 			continue // keep the Coq terms small
 		}
 		c := sh.File()
